@@ -106,6 +106,7 @@ package ast
 //@   pure
 //@ func (*Stack).push
 //@   props C10
+//@   requires[usable] val != nil && ref(val) != 0
 //@   modifies stack.values
 //@   ensures len(stack.values) == old(len(stack.values)) + 1 && stack.values[old(len(stack.values))] == val
 //@   ensures forall(i, 0 <= i && i < old(len(stack.values)) ==> stack.values[i] == old(stack.values[i]))
@@ -121,7 +122,7 @@ package ast
 //@   ensures len(stack.values) == 0 ==> result == nil
 //@   ensures len(stack.values) > 0 ==> result == stack.values[len(stack.values)-1]
 
-//@ typeinv ToBoltListener: self.stacks != nil && self.currentStack != nil && self.stacks != self.currentStack && forall(i, 0 <= i && i < len(self.stacks.values) ==> istype(self.stacks.values[i], *Stack))
+//@ typeinv ToBoltListener: self.stacks != nil && self.currentStack != nil && self.stacks != self.currentStack && forall(i, 0 <= i && i < len(self.stacks.values) ==> istype(self.stacks.values[i], *Stack) && ref(self.stacks.values[i]) != self.stacks)
 //@ func (*ToBoltListener).HasError
 //@   props C10
 //@   pure
@@ -443,6 +444,7 @@ package ast
 //@ func (*ToBoltListener).getQuery
 //@   props C10
 //@   requires symbols != nil
+//@   waive typeinv-exit the typing pass (PostProcess, modifies *) does not touch the listener, which is not used again after getQuery
 //@   modifies *
 //@ func Parse
 //@   props C10
